@@ -9,7 +9,7 @@ package main
 // protocol's schedule of the compressed format. One line per run.
 //
 // ops:
-//   gate.join   name= host= port= ouuid= t= chk= reason= c2s= s2c=   => c= s= cname= cuuid= sname= suuid= sproto= cs= sc= rs= rc=
+//   gate.join   name= host= port= ouuid= auth= cproto= t= chk= reason= c2s= s2c=   => c= s= cname= cuuid= sname= suuid= sproto= cs= sc= rs= rc=
 //   disp.run    t= calls= regs= pkts=                                      => log=… end=…
 //   gate.bot    name= ouuid= script=                                 => c= cname= cuuid= cs=
 //   gate.status mode=mem|tcp name= proto= max= online= desc= fav= ns= seq= payload=  => r=…
@@ -424,6 +424,7 @@ type joinCase struct {
 	t      int
 	chk    string // nil | acc | ref
 	reason string
+	auth   string // bot Auth.UUID as 32 hex digits; "" = empty (the hello then carries the zero UUID)
 	c2s    []playPkt
 	s2c    []playPkt
 }
@@ -440,9 +441,23 @@ func (j joinCase) args() []string {
 	ou := offlineUUIDRef(j.name)
 	return []string{
 		"name=" + hx([]byte(j.name)), "host=" + hx([]byte(j.host)), "port=" + strconv.Itoa(j.port),
-		"ouuid=" + hex.EncodeToString(ou[:]), "cproto=" + strconv.Itoa(bot.ProtocolVersion), "t=" + strconv.Itoa(j.t), "chk=" + j.chk, "reason=" + hx([]byte(j.reason)),
+		"ouuid=" + hex.EncodeToString(ou[:]), "auth=" + c19Dash(j.auth), "cproto=" + strconv.Itoa(bot.ProtocolVersion), "t=" + strconv.Itoa(j.t), "chk=" + j.chk, "reason=" + hx([]byte(j.reason)),
 		"c2s=" + pktsArg(j.c2s), "s2c=" + pktsArg(j.s2c),
 	}
+}
+
+func c19Dash(s string) string {
+	if s == "" {
+		return "-"
+	}
+	return s
+}
+
+func c19Undash(s string) string {
+	if s == "-" {
+		return ""
+	}
+	return s
 }
 
 func classifyJoinErr(err error) string {
@@ -554,6 +569,12 @@ func runJoin(j joinCase) string {
 
 	cl := bot.NewClient()
 	cl.Auth.Name = j.name
+	if j.auth != "" {
+		// an account UUID presented to an offline-mode server
+		if u, e := uuid.Parse(j.auth); e == nil {
+			cl.Auth.UUID = u.String()
+		}
+	}
 	cliRecv := &recvLog{}
 	cl.Events.AddGeneric(bot.PacketHandler{Priority: 0, F: func(p pk.Packet) error {
 		if p.ID == c19MarkerS2C && bytes.Equal(p.Data, endMagic) {
@@ -628,8 +649,13 @@ func runJoin(j joinCase) string {
 		// the JSON text of a login disconnect is produced by encoding/json: its length is not compared
 		return j.chk == "ref" && f.id == int32(packetid.ClientboundLoginLoginDisconnect) && ((j.t >= 0 && k == 1) || (j.t < 0 && k == 0))
 	}
-	return fmt.Sprintf("c=%s%s s=%s%s cname=%s cuuid=%s sname=%s suuid=%s sproto=%d chk=%s cs=%s sc=%s rs=%s rc=%s",
-		cRes, cliExtra, sRes, srvErr, cName, cID, sName, sID, sProto, chkSeen,
+	// the UUID the client claimed in its login hello (last 16 bytes of its second frame)
+	hUUID := "-"
+	if len(cs) >= 2 && len(cs[1].data) >= 16 {
+		hUUID = hex.EncodeToString(cs[1].data[len(cs[1].data)-16:])
+	}
+	return fmt.Sprintf("c=%s%s s=%s%s cname=%s cuuid=%s sname=%s suuid=%s sproto=%d chk=%s huuid=%s cs=%s sc=%s rs=%s rc=%s",
+		cRes, cliExtra, sRes, srvErr, cName, cID, sName, sID, sProto, chkSeen, hUUID,
 		traceString(cs, csok, nil), traceString(sc, scok, star), srvRecv.String(), cliRecv.String())
 }
 
@@ -1146,7 +1172,7 @@ func replayC19(c *Ctx, op string, args []string) bool {
 	switch op {
 	case "gate.join":
 		c19Join(c, joinCase{name: string(unhx(m["name"])), host: string(unhx(m["host"])), port: c19Atoi(m["port"]), t: c19Atoi(m["t"]),
-			chk: m["chk"], reason: string(unhx(m["reason"])), c2s: c19ParsePkts(m["c2s"]), s2c: c19ParsePkts(m["s2c"])})
+			chk: m["chk"], reason: string(unhx(m["reason"])), auth: c19Undash(m["auth"]), c2s: c19ParsePkts(m["c2s"]), s2c: c19ParsePkts(m["s2c"])})
 	case "disp.run":
 		c19DispN(c, c19Atoi(m["t"]), c19Atoi(m["calls"]), parseRegs(m["regs"]), parseIDs(m["pkts"]))
 	case "gate.bot":
@@ -1241,6 +1267,18 @@ func genC19(c *Ctx) {
 					kind++
 					j := joinCase{name: c19Name(r, kind), host: []string{"localhost", "mc.example.org", "127.0.0.1", "h"}[r.Intn(4)],
 						port: []int{25565, 1, 65535, 1024 + r.Intn(60000)}[r.Intn(4)], t: t, chk: chk}
+					switch kind % 4 {
+					case 1:
+						ou := offlineUUIDRef(j.name)
+						j.auth = hex.EncodeToString(ou[:])
+					case 2:
+						var u [16]byte
+						r.Read(u[:])
+						j.auth = hex.EncodeToString(u[:])
+					case 3:
+						ou := offlineUUIDRef(j.name + "_other")
+						j.auth = hex.EncodeToString(ou[:])
+					}
 					if chk != "nil" {
 						j.reason = []string{"You are not white-listed", "server full", "нет", "banned: " + strconv.Itoa(r.Intn(1000)), "x"}[r.Intn(5)]
 					}
